@@ -192,4 +192,23 @@ def validateRemove (env : OpsEnv) (proposer ts : Nat) (finalized : Bool) (canonR
             else if tx.input = candi.tx ∧ tx.amount = acc.amount ∧ tx.extra = acc.extra ∧ tx.rest = canonRest
               then .accept else .reject
 
+/-! ## the validators on a snapshot `(snapNode, snapTs)`, as run by the node `self` whose clock shows `clock` -/
+
+def validatePledgeSnap (self clock : Nat) (env : OpsEnv) (lock : Option OpLock) (snapNode snapTs : Nat)
+    (finalized : Bool) (tx : OpTx) : Decision × Option OpLock :=
+  validatePledge env lock snapNode (opTime self clock snapNode snapTs) finalized tx
+
+def validateCancelSnap (self clock : Nat) (env : OpsEnv) (lock : Option OpLock) (snapNode snapTs : Nat)
+    (finalized : Bool) (tx : OpTx) : Decision × Option OpLock :=
+  validateCancel env lock (opTime self clock snapNode snapTs) finalized tx
+
+/-- `chain`, `future` and `canonRest` are the reads at the time used (see `validateAccept`) -/
+def validateAcceptSnap (self clock : Nat) (env : OpsEnv) (chain : ChainView) (round snapNode snapTs : Nat)
+    (future finalized : Bool) (canonRest : Nat) (tx : OpTx) : Decision :=
+  validateAccept env chain round (opTime self clock snapNode snapTs) future finalized canonRest tx
+
+def validateRemoveSnap (self clock : Nat) (env : OpsEnv) (snapNode snapTs : Nat) (finalized : Bool)
+    (canonRest : Nat) (tx : OpTx) : Decision :=
+  validateRemove env snapNode (opTime self clock snapNode snapTs) finalized canonRest tx
+
 end Mixin.NodeOps
